@@ -33,9 +33,26 @@ class ScreenProtocol(Protocol):
         "get_cols_rows": PMethod(Tup(Int(1, 2**16), Int(1, 2**16)), params=[]),
         "clear": PMethod(None, params=[]),
         "draw_screen": PMethod(None, params=["size", "canvas"]),
+        "set_input_timeouts": PMethod(None, params=["max_wait"]),
+        "get_input": PMethod(None, params=["raw_keys"]),  # result: see call() below
     }
     attrs = {"started": Bool}
     has = {"hook_event_loop": "uf"}
+
+    def call(self, ip, st, recv, name, args, kwargs):
+        if name == "get_input":
+            # blocks until input arrives or the timeout set before runs out: any batch of events (possibly empty)
+            # and the raw codes; logged as a "wait"
+            st.event("wait", st.ghost.get("input_timeout", "unset"), st.ghost.get("now"))
+            r = (fresh_keys(st, "input"), V.SOpaque("RawCodes", z3.Const(st.fresh_name("raw"), S.opaque_sort("RawCodes"))))
+            st.event("call", recv, name, {"raw_keys": args[0] if args else kwargs.get("raw_keys")}, r)
+            return r
+        if name == "set_input_timeouts":
+            t = args[0] if args else kwargs.get("max_wait")
+            st.ghost["input_timeout"] = t  # (a float: not encodable as an uninterpreted-function argument)
+            st.event("call", recv, name, {"max_wait": t}, None)
+            return None
+        return super().call(ip, st, recv, name, args, kwargs)
 
 
 class EventLoopProtocol(Protocol):
@@ -132,11 +149,9 @@ class ml_stop:
         cur().event("call", old.screen, "stop", {}, None)
 
 
-@contract(ML + "MainLoop._run_screen_event_loop", property=(), assumed=True, notes="the built-in loop for screens without external event-loop support: user callbacks run in here, it may raise anything (bounded check only)")
-class ml_rsel:
-    self_shape = MAINLOOP
-    raises = (BaseException,)
-    log_event = "_run_screen_event_loop"
+# MainLoop._run_screen_event_loop (the built-in loop for screens without external event-loop support; user callbacks
+# run in there, it may raise anything): its body is verified in contracts/C12_screen_loop.py; at the call site in _run
+# only "raises BaseException" and its log event are used, as before.
 
 
 @contract(ML + "MainLoop._run", property="C12", replayable=False)
@@ -188,6 +203,9 @@ class UserFnProtocol(Protocol):
     def call(self, ip, st, f, args, kwargs):
         k = st.fork(2)
         st.event("userfn", f, tuple(args))
+        h = getattr(ip.task.c, "userfn_havoc", None)  # rely of the contract under verification (e.g. alarms set / removed)
+        if h is not None:
+            h(st)
         if k == 1:
             raise PyRaise(SExc(BaseException, ("<user callback raised>",), site="user callback"))
         if f.meta.get("role") == "filter":
